@@ -7,11 +7,13 @@ set `s` whatever it sends — a retired authority that keeps voting is outside e
 the whole system is one protocol state per set id; a step is a step of the single-set protocol in one set.
 
 What joins consecutive sets is the HANDOVER block `P.limit s` (the block that enacts the change from set s
-to set s+1).  Assumed honest behaviour, beyond the single-set rules (`okVote`):
-  cap     a vote of set s never lies strictly above `limit s` (voters cap their votes at the pending change:
-          determinePreVote / determinePreCommit → NextGrandpaAuthorityChange in lib/grandpa);
-  base    a vote of set s+1 descends from `limit s`, and is cast only when `limit s` has a supermajority of
+to set s+1).  Assumed honest behaviour, beyond the single-set rules (`okVote`, required of PRECOMMITS only):
+  cap     a precommit of set s never lies strictly above `limit s` (voters cap their votes at the pending
+          change: determinePreCommit → NextGrandpaAuthorityChange in lib/grandpa);
+  base    a precommit of set s+1 descends from `limit s`, and is cast only when `limit s` has a supermajority of
           the precommits of some round of set s (a voter enters set s+1 by finalising the handover block).
+Prevotes need not obey either rule (lib/grandpa's determinePreVote asks for the pending change on the chain of
+its BEST block, so a primary's block on another chain is copied uncapped).
 Assumed of the parameters: the handover blocks lie on one chain, `limit s ≤ limit (s+1)`.
 
 Proved (`sets_safe`): blocks finalised by honest voters — in the same set or in different sets — lie on one
@@ -53,7 +55,8 @@ def okVote (P : SetParams B) (O : BlockOrder B) (σ : MState B) (s : Nat) (b : B
 
 inductive MStep (P : SetParams B) (O : BlockOrder B) : MState B → MState B → Prop
   | mk (σ : MState B) (s : Nat) (t : State B) : Step (P.vs s) O (σ s) t →
-      (∀ m, m ∈ t.sent → m ∉ (σ s).sent → (P.vs s).honest m.voter → okVote P O σ s m.block) →
+      (∀ m, m ∈ t.sent → m ∉ (σ s).sent → (P.vs s).honest m.voter → m.stage = .precommit →
+        okVote P O σ s m.block) →
       MStep P O σ (upd σ s t)
 
 inductive MReachable (P : SetParams B) (O : BlockOrder B) : MState B → Prop
@@ -62,7 +65,7 @@ inductive MReachable (P : SetParams B) (O : BlockOrder B) : MState B → Prop
 
 structure MInv (P : SetParams B) (O : BlockOrder B) (σ : MState B) : Prop where
   inv : ∀ s, Inv (P.vs s) O (σ s)
-  ok : ∀ s m, m ∈ (σ s).sent → (P.vs s).honest m.voter → okVote P O σ s m.block
+  ok : ∀ s m, m ∈ (σ s).sent → (P.vs s).honest m.voter → m.stage = .precommit → okVote P O σ s m.block
 
 variable {P : SetParams B} {O : BlockOrder B}
 
@@ -92,17 +95,17 @@ theorem MInv.step {σ τ : MState B} (I : MInv P O σ) (h : MStep P O σ τ) : M
       by_cases hs : s' = s
       · rw [if_pos hs]; subst hs; exact (I.inv s').step hst
       · rw [if_neg hs]; exact I.inv s'
-    · intro s' m hm hv
+    · intro s' m hm hv hst'
       apply okVote_lift hsub
       simp only [upd] at hm
       by_cases hs : s' = s
       · rw [if_pos hs] at hm
         subst hs
         rcases Classical.em (m ∈ (σ s').sent) with hold | hnew
-        · exact I.ok s' m hold hv
-        · exact hguard m hm hnew hv
+        · exact I.ok s' m hold hv hst'
+        · exact hguard m hm hnew hv hst'
       · rw [if_neg hs] at hm
-        exact I.ok s' m hm hv
+        exact I.ok s' m hm hv hst'
 
 theorem MReachable.minv {σ : MState B} (h : MReachable P O σ) : MInv P O σ := by
   induction h with
@@ -120,20 +123,20 @@ theorem limit_mono (hlim : ∀ s, O.le (P.limit s) (P.limit (s + 1)) = true) (s 
     precommits of some round of set s1 -/
 theorem MInv.handover {σ : MState B} (I : MInv P O σ) (s1 : Nat) :
     ∀ d s2, s2 = s1 + d + 1 → (∀ k, s1 < k → k < s2 → (P.vs k).minority) →
-      (∃ m, m ∈ (σ s2).sent ∧ (P.vs s2).honest m.voter) →
+      (∃ m, m ∈ (σ s2).sent ∧ (P.vs s2).honest m.voter ∧ m.stage = .precommit) →
       ∃ r, hasSuper (P.vs s1) O (votesOf (σ s1).sent r .precommit) (P.limit s1) := by
   intro d
   induction d with
   | zero =>
-    intro s2 hs2 _ ⟨m, hm, hv⟩
-    exact ((I.ok s2 m hm hv).2 s1 (by omega)).2
+    intro s2 hs2 _ ⟨m, hm, hv, hst⟩
+    exact ((I.ok s2 m hm hv hst).2 s1 (by omega)).2
   | succ d ih =>
-    intro s2 hs2 hmin ⟨m, hm, hv⟩
-    have ⟨_, r, hr⟩ := (I.ok s2 m hm hv).2 (s1 + d + 1) (by omega)
+    intro s2 hs2 hmin ⟨m, hm, hv, hst⟩
+    have ⟨_, r, hr⟩ := (I.ok s2 m hm hv hst).2 (s1 + d + 1) (by omega)
     have ⟨v, c, hvh, hvc, _⟩ := hasSuper_honest_vote (P.vs (s1 + d + 1)) O _ _
       (hmin (s1 + d + 1) (by omega) (by omega)) ((I.inv (s1 + d + 1)).hist.single r .precommit) hr
     rw [mem_votesOf] at hvc
-    exact ih (s1 + d + 1) rfl (fun k h1 h2 => hmin k h1 (by omega)) ⟨_, hvc, hvh⟩
+    exact ih (s1 + d + 1) rfl (fun k h1 h2 => hmin k h1 (by omega)) ⟨_, hvc, hvh, rfl⟩
 
 /-- safety across authority sets -/
 theorem MInv.safe {σ : MState B} (I : MInv P O σ)
@@ -154,7 +157,7 @@ theorem MInv.safe {σ : MState B} (I : MInv P O σ)
     rw [mem_votesOf] at hvc2
     -- the handover block of set s1 was finalisable in set s1
     have ⟨r, hr⟩ := I.handover s1 (s2 - s1 - 1) s2 (by omega)
-      (fun k h1 h2 => hmin k (by omega) (by omega)) ⟨_, hvc2, hv2⟩
+      (fun k h1 h2 => hmin k (by omega) (by omega)) ⟨_, hvc2, hv2, rfl⟩
     -- … so b1 is below it
     have hcmp : O.comparable b1 (P.limit s1) := (I.inv s1).hist.safe hm1 r1 r b1 _ h1 hr
     have hb1 : O.le b1 (P.limit s1) = true := by
@@ -164,10 +167,10 @@ theorem MInv.safe {σ : MState B} (I : MInv P O σ)
         have ⟨v1, c1, hv1, hvc1, hbc1⟩ :=
           hasSuper_honest_vote (P.vs s1) O _ b1 hm1 ((I.inv s1).hist.single r1 .precommit) h1
         rw [mem_votesOf] at hvc1
-        have hcap := (I.ok s1 _ hvc1 hv1).1 (O.trans _ _ _ h hbc1)
+        have hcap := (I.ok s1 _ hvc1 hv1 rfl).1 (O.trans _ _ _ h hbc1)
         exact O.trans _ _ _ hbc1 hcap
     -- and the precommit of set s2 is above the handover block of set s2-1, hence of set s1
-    have hbase := ((I.ok s2 _ hvc2 hv2).2 (s2 - 1) (by omega)).1
+    have hbase := ((I.ok s2 _ hvc2 hv2 rfl).2 (s2 - 1) (by omega)).1
     have hmono := limit_mono hlim s1 (s2 - 1 - s1)
     have hidx : s1 + (s2 - 1 - s1) = s2 - 1 := by omega
     rw [hidx] at hmono
